@@ -25,10 +25,23 @@ type half struct {
 
 	// filter, if set, transforms each raw write before delivery (non-held mode); idx is the write index
 	filter func(idx int, p []byte) []byte
+
+	// failAt >= 0: the raw write with this index fails like a transport whose deadline expires
+	// mid-write: failKeep bytes reach the wire, the call returns an error. attempts logs the full
+	// buffer of every write call (also the failed one).
+	failAt   int
+	failKeep int
+	attempts [][]byte
 }
 
+type timeoutErr struct{}
+
+func (timeoutErr) Error() string   { return "i/o timeout (injected)" }
+func (timeoutErr) Timeout() bool   { return true }
+func (timeoutErr) Temporary() bool { return true }
+
 func newHalf() *half {
-	h := &half{}
+	h := &half{failAt: -1}
 	h.cond = sync.NewCond(&h.mu)
 	return h
 }
@@ -40,6 +53,17 @@ func (h *half) write(p []byte) (int, error) {
 		return 0, io.ErrClosedPipe
 	}
 	idx := len(h.writes)
+	h.attempts = append(h.attempts, append([]byte{}, p...))
+	if idx == h.failAt {
+		k := min(h.failKeep, len(p))
+		h.wire = append(h.wire, p[:k]...)
+		h.writes = append(h.writes, k)
+		if !h.held {
+			h.avail = append(h.avail, p[:k]...)
+		}
+		h.cond.Broadcast()
+		return k, timeoutErr{}
+	}
 	h.wire = append(h.wire, p...)
 	h.writes = append(h.writes, len(p))
 	if !h.held {
